@@ -69,6 +69,14 @@ pub static RESIDENCY_VIOLATIONS: AtomicUsize = AtomicUsize::new(0);
 pub static RESIDENCY_CHECKS: AtomicUsize = AtomicUsize::new(0);
 pub static RESIDENCY_WITNESS: Mutex<Option<String>> = Mutex::new(None);
 
+// ---- timer-list contract monitor: `Entry::remove` of may_queue's mpsc list is a consumer-side operation, the consumer
+// of an io timer list is the selector thread of `fd % workers`. EP_BEFORE_TIMERS(id) tells which OS thread runs selector
+// `id`; IO_TIMER_UNLINK(id) is hit by whoever is about to unlink an entry of that selector's list.
+pub static SELECTOR_THREAD: [AtomicUsize; 64] = [const { AtomicUsize::new(0) }; 64];
+pub static UNLINK_CHECKS: AtomicUsize = AtomicUsize::new(0);
+pub static UNLINK_VIOLATIONS: AtomicUsize = AtomicUsize::new(0);
+pub static UNLINK_WITNESS: Mutex<Option<String>> = Mutex::new(None);
+
 /// sites that idle worker loops / the timer-thread loop pass periodically: they are neither
 /// progress nor part of an interleaving signature
 pub fn is_idle_site(s: u32) -> bool {
@@ -109,6 +117,9 @@ pub fn is_armed_site(s: u32) -> bool {
     (200..=235).contains(&s) && (s - 200) % 3 == 1
 }
 
+/// not in the site table of older may trees: the monitor is simply never fed there
+const IO_TIMER_UNLINK: u32 = 250;
+
 fn hook(s: u32, obj: usize) {
     let si = s as usize;
     if si >= NSITES {
@@ -131,6 +142,20 @@ fn hook(s: u32, obj: usize) {
     }
     if s == site::RUN_CO_ENTER || s == site::RUN_CO_EXIT {
         residency(s == site::RUN_CO_ENTER, obj, t);
+    }
+    if s == site::EP_BEFORE_TIMERS && obj < 64 {
+        SELECTOR_THREAD[obj].store(t + 1, Relaxed);
+    }
+    if s == IO_TIMER_UNLINK && obj < 64 {
+        UNLINK_CHECKS.fetch_add(1, Relaxed);
+        let owner = SELECTOR_THREAD[obj].load(Relaxed);
+        if owner != 0 && owner != t + 1 {
+            UNLINK_VIOLATIONS.fetch_add(1, SeqCst);
+            let mut w = UNLINK_WITNESS.lock().unwrap_or_else(|e| e.into_inner());
+            if w.is_none() {
+                *w = Some(format!("an io timer entry of selector {} (its timer list is run by OS thread #{}) is being unlinked by OS thread #{}", obj, owner - 1, t));
+            }
+        }
     }
     let np = PLAN_N.load(Relaxed);
     for i in 0..np {
